@@ -197,6 +197,60 @@ func vGaussianCase(moduli []uint64, sigma, bound float64, add bool, tag string) 
 	}
 }
 
+// Montgomery output through level views: a sampler created for Montgomery output returns the Montgomery form of a
+// bounded sample (one integer on every limb) - read directly and through AtLevel views.
+func VerifH_C17_GaussianMontgomeryLevelViews() {
+	vConfig("backend", "int")
+	vStub("(*github.com/tuneinsight/lattigo/v6/ring.GaussianSampler).normFloat64", "call:vStubNormFloat64")
+	moduli := []uint64{12289, 257}
+	r := vSamplerRing(moduli)
+	xe := DiscreteGaussian{Sigma: 3.2, Bound: 19.2}
+	B := big.NewInt(19)
+	vNormFree = false
+	for _, level := range []int{-1, 1, 0} { // -1: direct read
+		tag := "montgomery-direct"
+		if level >= 0 {
+			tag = "montgomery-AtLevel" + string(rune('0'+level))
+		}
+		var g Sampler = NewGaussianSampler(&vStream{data: vBytes("s", 1024)}, r, xe, true)
+		top := len(moduli) - 1
+		if level >= 0 {
+			g = g.AtLevel(level)
+			top = level
+		}
+		lv := level
+		vSearch(tag, 256, func(rnd func() uint64) bool { // native witness: the real normal deviates on random streams
+			buf := make([]byte, 4096)
+			for i := range buf {
+				buf[i] = byte(rnd() >> 32)
+			}
+			var gs Sampler = NewGaussianSampler(&vStream{data: buf}, r, xe, true)
+			if lv >= 0 {
+				gs = gs.AtLevel(lv)
+			}
+			q := r.NewPoly()
+			gs.Read(q)
+			for i := 0; i < r.N(); i++ {
+				if x := vCentredOf(IMForm(q.Coeffs[0][i], moduli[0], r.SubRings[0].MRedConstant), moduli[0]); new(big.Int).Abs(x).Cmp(B) > 0 {
+					return true
+				}
+			}
+			return false
+		})
+		a := r.NewPoly()
+		vNormCalls = 0
+		g.Read(a)
+		for i := 0; i < 2; i++ {
+			x := vCentredOf(IMForm(a.Coeffs[0][i], moduli[0], r.SubRings[0].MRedConstant), moduli[0])
+			vAssert(new(big.Int).Abs(x).Cmp(B) <= 0, tag+"-sample-is-the-Montgomery-form-of-a-value-within-the-bound")
+			for j := 0; j <= top; j++ {
+				vAssert(vCong(vB(IMForm(a.Coeffs[j][i], moduli[j], r.SubRings[j].MRedConstant)), x, moduli[j]), tag+"-one-integer-on-every-limb")
+			}
+		}
+	}
+	vCover("C17-gaussian-montgomery-reached")
+}
+
 func VerifH_C17_Gaussian() {
 	vConfig("backend", "int")
 	vStub("(*github.com/tuneinsight/lattigo/v6/ring.GaussianSampler).normFloat64", "call:vStubNormFloat64")
